@@ -282,6 +282,26 @@ def _(P, v):
     out = dig(a); plt.close("all"); return out
 
 
+@ep("plot_landscape 3-D exact")
+def _(P, v):
+    lv.plot_landscape(P["ple1"], num_steps=40)
+    plt.close("all"); return None
+@ep("plot_landscape 3-D approx")
+def _(P, v):
+    lv.plot_landscape(P["pla1"], num_steps=40)
+    plt.close("all"); return None
+@ep("PersImage (deprecated) transform", F2)
+def _(P, v):
+    from persim import PersImage
+    pim = PersImage(pixels=(4, 4), verbose=False)
+    return [pim.transform(V(P, "D1", v, F2)), pim.transform([P["D2"], P["D1"]])]
+@ep("imager plot_diagram skew=False")
+def _(P, v):
+    a, b = ax2()
+    r = P["pim"].plot_diagram(P["BP"], skew=False, ax=a)
+    out = dig(r); plt.close("all"); return out
+
+
 def handler(job):
     if job.get("list"):
         return {"names": [n for n, _, _ in FNS], "nvariants": [len(f) for _, _, f in FNS]}
